@@ -20,6 +20,7 @@ import ModVerif.Proofs.EditMoreStartW
 import ModVerif.Proofs.EditMoreSepG
 import ModVerif.Proofs.EditMoreNoPanic
 import ModVerif.Proofs.EditMarkerInv
+import ModVerif.Proofs.EditPanicRun
 namespace ModVerif.Props.C15
 open ModVerif ModVerif.EditSpec ModVerif.Modfile
 
@@ -464,8 +465,8 @@ theorem typed_eq_tree_partial4_static (name data : Bytes) (f : File) (ops : List
     have settable markers, a session of go.mod operations with statically valid arguments (`Edit.StaticValid`: bulk setters
     directly after a Cleanup, with distinct non-empty paths) ALWAYS runs to completion — no nil `Syntax` dereference, no
     "two versions" panic, no `ensureBlock` on an unexpected statement — and ends in a state satisfying the invariant.
-    Missing for the full statement: the marker condition on the START state is only needed because `Inv` contains the
-    marker clause; it plays no role in the panics. -/
+    The marker condition on the START state is only needed because `Inv` (the conclusion) contains the marker clause; it
+    plays no role in the panics: the full statement, without it, is `nilDeref_unreachable` below (which concludes `P.Inv`). -/
 theorem nilDeref_unreachable_partial3 (e : Edit.EFile) (ops : List Edit.Op) (hi : Edit.Inv e)
     (hm : Edit.MarkersSettable e.f.syn.stmts) (hv : Edit.StaticValid false ops) (hmod : ∀ op ∈ ops, Edit.IsModOp op) :
     ∃ e' res, Edit.runOps Edit.applyMod e ops [] 0 = .done e' res ∧ Edit.Inv (Edit.cleanup e') := by
@@ -507,5 +508,98 @@ example :
       .setRequireSeparateIndirect [⟨B "d", B "v1.0.0", true⟩] false]
     Edit.staticValidB false ops = true ∧ Edit.MarkersSettable (Edit.load {}).f.syn.stmts := by
   constructor <;> decide +kernel
+
+/-! ### `nilDeref_unreachable` without any hypothesis on the comments (Proofs/EditPanic{Inv,Bulk,Run}.lean)
+
+    `Edit.P.Inv e` is `Edit.Inv e` with the requirement entry weakened to the tokens (`Edit.P.entRq`: the line shows
+    `require <AutoQuoted path> <version>`; nothing is said about the `// indirect` marker).  The marker clause of `Inv` is
+    the only thing the bulk requirement setters do not always re-establish (`C16_violated_indirect_marker_survives`), and it
+    plays no role in the panics: `P.Inv` is preserved by EVERY go.mod operation with no condition on the comments, and on a
+    state satisfying it no operation panics. -/
+
+/-- the full invariant implies the invariant without the marker clause -/
+theorem inv_forget_marker (e : Edit.EFile) (h : Edit.Inv e) : Edit.P.Inv e := Edit.P.Inv.ofFull h
+
+/-- **one operation preserves the invariant without the marker clause — EVERY go.mod operation**, for arguments valid in
+    the sense of `Edit.ValidArgsLive` (as `ValidArgsT`; a bulk requirement setter has distinct non-empty paths and runs on
+    live requirements); no `NoNestedIndirectMarker` -/
+theorem op_preserves_inv_no_marker (e e' : Edit.EFile) (op : Edit.Op) (hv : Edit.ValidArgsLive e op) (hi : Edit.P.Inv e)
+    (h : Edit.applyMod e op = some (.ok e')) : Edit.P.Inv e' :=
+  Edit.P.applyMod_inv_all e e' op hv hi h
+
+/-- **no panic — EVERY go.mod operation** on a state satisfying the invariant without the marker clause: the result is a
+    success or one of the three documented returned errors -/
+theorem op_no_panic (e : Edit.EFile) (op : Edit.Op) (hv : Edit.ValidArgsLive e op) (hm : Edit.IsModOp op) (hi : Edit.P.Inv e) :
+    Edit.NoPanic (Edit.applyMod e op) :=
+  Edit.P.applyMod_noPanic_all e op hv hm hi
+
+/-- `nilDeref_unreachable` from a state: as `nilDeref_unreachable_partial3` with `Edit.P.Inv` for `Edit.Inv` and WITHOUT
+    `MarkersSettable` -/
+theorem nilDeref_unreachable_from_state (e : Edit.EFile) (ops : List Edit.Op) (hi : Edit.P.Inv e)
+    (hv : Edit.StaticValid false ops) (hmod : ∀ op ∈ ops, Edit.IsModOp op) :
+    ∃ e' res, Edit.runOps Edit.applyMod e ops [] 0 = .done e' res ∧ Edit.P.Inv (Edit.cleanup e') :=
+  Edit.P.nilDeref_unreachable_state e ops hi hv hmod
+
+/-- **nilDeref_unreachable (FULL).**  For EVERY go.mod text accepted by the strict parser (no version fixer, as in
+    `sessionMod`) with well-formed keys (`WellFormedKeys`: observation O5; `NoBlockSuffix`: the recorded
+    `verb () // comment` finding — both as in `parseStrict_inv`) and EVERY session of go.mod operations whose arguments are
+    statically valid (`Edit.StaticValid false ops`: non-empty keys; a bulk requirement setter has distinct non-empty paths
+    and comes directly after a Cleanup), the session runs to completion: every operation, in the state in which it runs,
+    succeeds or returns a documented error — it NEVER returns `EditErr.nilDeref` (Go: nil `Syntax` dereference on a cleared
+    entry), `EditErr.badStatement` (`ensureBlock` on an unexpected statement) or `EditErr.conflictingVersions` (the "two
+    versions for one path" panic) —, and after the final Cleanup the typed lists are again the token-level reading of the
+    syntax tree (`Edit.P.Inv`).  No hypothesis on the end-of-line comments: the `MarkersSettable` /
+    `NoNestedIndirectMarker` condition of `nilDeref_unreachable_partial3` is gone (the file may hold nested
+    `// indirect; indirect` markers, on which `Edit.Inv` is NOT preserved). -/
+theorem nilDeref_unreachable (name data : Bytes) (f : File) (ops : List Edit.Op)
+    (hf : parseToFile name data none true = .ok f) (hk : Edit.WellFormedKeys f) (hs : Edit.NoBlockSuffix f.syn)
+    (hv : Edit.StaticValid false ops) (hmod : ∀ op ∈ ops, Edit.IsModOp op) :
+    ∃ e' res, Edit.runOps Edit.applyMod (Edit.load f) ops [] 0 = .done e' res ∧
+      (∀ (pre : List Edit.Op) (op : Edit.Op) (post : List Edit.Op), ops = pre ++ op :: post →
+        ∃ e1 r1, Edit.runOps Edit.applyMod (Edit.load f) pre [] 0 = .done e1 r1 ∧
+          Edit.applyMod e1 op ≠ some (.error .nilDeref) ∧ Edit.applyMod e1 op ≠ some (.error .badStatement) ∧
+          Edit.applyMod e1 op ≠ some (.error .conflictingVersions)) ∧
+      Edit.P.Inv (Edit.cleanup e') :=
+  Edit.P.nilDeref_unreachable_parsed name data f ops hf hk hs hv hmod
+
+/-- non-vacuity of `nilDeref_unreachable`, on exactly what the old hypothesis excluded: a parsed go.mod with nested
+    `// indirect; indirect` markers (in a block and on a single line) is NOT `MarkersSettable`, satisfies the start
+    conditions, the session (drops that leave cleared placeholders, SetRequire and SetRequireSeparateIndirect each directly
+    after a Cleanup, each asking for one of the marked requirements as direct) is statically valid and runs to completion; at the end
+    the FULL invariant `Edit.Inv` fails (`invB` false: the marker survived) — the theorem's conclusion is about `P.Inv` -/
+example :
+    (match parseToFile (B "go.mod") (B "module m\n\ngo 1.21\n\nrequire (\n\ta.b/c v1.0.0 // indirect; indirect\n\tx.y/z v1.2.3\n)\nrequire a.b/d v1.0.0 // indirect; indirect\nexclude x.y/z v1.0.0\n") none true with
+     | .ok f =>
+       Edit.startOKb f && f.syn.stmts.all (fun x => match x with
+         | .lineBlock b => b.comments.suffix.isEmpty
+         | _ => true) &&
+       !decide (Edit.MarkersSettable f.syn.stmts) &&
+       (let ops : List Edit.Op := [.addRequire (B "a.b/e") (B "v1.0.0"), .dropRequire (B "x.y/z"), .cleanup,
+          .setRequire [⟨B "a.b/c", B "v1.1.0", false⟩, ⟨B "a.b/d", B "v1.0.0", true⟩, ⟨B "a.b/f", B "v0.1.0", true⟩] false,
+          .dropRequire (B "a.b/f"), .cleanup,
+          .setRequireSeparateIndirect [⟨B "a.b/c", B "v1.2.0", true⟩, ⟨B "a.b/d", B "v1.0.0", false⟩] true, .addTool (B "a.b/t"), .cleanup]
+        Edit.staticValidB false ops &&
+        (match Edit.runOps Edit.applyMod (Edit.load f) ops [] 0 with
+         | .done e res => res.all id && !Edit.invB (Edit.cleanup e)
+         | _ => false))
+     | .error _ => false) = true := by decide +kernel
+
+/-- … and the operations of that session are go.mod operations -/
+example : ∀ op ∈ ([.addRequire (B "a.b/e") (B "v1.0.0"), .dropRequire (B "x.y/z"), .cleanup,
+      .setRequire [⟨B "a.b/c", B "v1.1.0", false⟩, ⟨B "a.b/d", B "v1.0.0", true⟩, ⟨B "a.b/f", B "v0.1.0", true⟩] false,
+      .dropRequire (B "a.b/f"), .cleanup,
+      .setRequireSeparateIndirect [⟨B "a.b/c", B "v1.2.0", true⟩, ⟨B "a.b/d", B "v1.0.0", false⟩] true, .addTool (B "a.b/t"), .cleanup] :
+      List Edit.Op), Edit.IsModOp op := by
+  intro op hop
+  simp only [List.mem_cons, List.mem_nil_iff, or_false] at hop
+  rcases hop with rfl | rfl | rfl | rfl | rfl | rfl | rfl | rfl | rfl <;> trivial
+
+/-- non-vacuity of `inv_forget_marker` / `op_preserves_inv_no_marker` / `op_no_panic` / `nilDeref_unreachable_from_state`: the
+    empty go.mod satisfies `P.Inv` (`Inv_empty`), and the session of the `partial2` example is statically valid -/
+example : Edit.P.Inv (Edit.load {}) ∧
+    Edit.staticValidB false [.addRequire (B "a") (B "v1.0.0"), .addNewRequire (B "b") (B "v1.0.0") true, .dropRequire (B "a"),
+      .cleanup, .setRequire [⟨B "b", B "v1.1.0", false⟩, ⟨B "c", B "v1.0.0", true⟩] true, .dropRequire (B "c"), .cleanup,
+      .setRequireSeparateIndirect [⟨B "d", B "v1.0.0", true⟩] false] = true :=
+  ⟨inv_forget_marker _ Inv_empty, by decide +kernel⟩
 
 end ModVerif.Props.C15
